@@ -253,10 +253,10 @@ def gen_case(rng, scenario=None):
     # multi-step scenarios: several from_mdp wrappers alive at once / a heuristic that itself runs a search
     if scenario is None:
         r = rng.random()
-        scenario = "two_wrappers" if r < .18 else "nested_h" if r < .34 else "plain"
+        scenario = "two_wrappers" if r < .18 else "nested_h" if r < .34 else "edit_replan" if r < .48 else "plain"
     case["scenario"] = scenario
     qk = ["det", "det", "det", "uniform", "uniform", "uniform", "dict"]
-    if scenario != "plain" and case["repr"] == "next_state":
+    if (scenario != "plain" and case["repr"] == "next_state") or (scenario == "edit_replan" and "/" not in case["repr"]):
         case["repr"] = rng.choice(qk) + "/" + rng.choice(qk)          # must go through from_mdp's wrapper
     if scenario == "nested_h":
         # relaxed problem: same transitions, each cost lowered (c' <= c): its exact cost-to-go is a consistent heuristic
@@ -272,7 +272,7 @@ def gen_case(rng, scenario=None):
     case["labels"] = rng.choice(["int", "int", "int", "perm", "str", "tuple", "float", "bool01"])
     if case["labels"] == "perm":
         case["perm"] = [3 * x - 4 for x in rng.sample(range(n), n)]
-    case["alabels"] = rng.choice(["int", "int", "int", "str", "str", "tuple"])
+    case["alabels"] = rng.choice(["int", "int", "int", "str", "str", "tuple", "list"])       # "list": unhashable action labels
     case["num_type"] = rng.choice(["float", "float", "int", "float32"])
     if case["num_type"] == "float32":
         # np.float32 rewards make A*'s sums float32 (24 bits): every g + k*h must be exact there, so only problems whose
@@ -284,11 +284,19 @@ def gen_case(rng, scenario=None):
         else:
             case["h"] = [tot if x == BIG else x for x in case["h"]]
     case["actions_container"] = rng.choice(["tuple", "list", "dict", "iter", "shared_list", "shared_list"])
+    if case["alabels"] == "list" and case["actions_container"] == "dict":
+        case["actions_container"] = "list"
     case["shared_dists"] = rng.random() < .3
-    case["tabular"] = "/" in case["repr"] and rng.random() < .2
+    case["tabular"] = "/" in case["repr"] and rng.random() < .2 and case["alabels"] != "list"   # tabular views need hashable actions
     case["replan"] = rng.random() < .25
     case["assert_monotone"] = rng.random() < .75
     assert consistent(case)
+    if scenario == "edit_replan":
+        case["tabular"] = False
+        case["edit_mode"] = rng.choice(["inplace", "inplace", "copy", "there_and_back"])
+        case["edited"] = gen_edit(rng, case)
+        if case["edited"]["num_type"] != case["num_type"]:
+            case["num_type"] = "float"
     if scenario == "two_wrappers":
         other = gen_case(rng, scenario="second_wrapper")
         if rng.random() < .4:     # ONE A* object and ONE BFS object plan on both problems (zero heuristic fits both)
@@ -302,6 +310,41 @@ def gen_case(rng, scenario=None):
         case["late_policy"] = rng.random() < .5      # the first results are only read after the second problem was planned
         case["other"] = other
     return case
+
+
+def gen_edit(rng, case):
+    """the same problem object after an edit: some transitions re-routed / re-priced, sometimes the start moved or a goal
+    toggled; same labels, representation and search options; heuristic recomputed for the edited problem"""
+    n = case["n"]
+    e = {k: v for k, v in case.items() if k not in ("other", "edited", "relaxed_succ", "relaxed_repr", "edit_mode")}
+    succ = [[list(x) for x in row] for row in case["succ"]]
+    cmax = max([c for row in succ for _, _, c in row] + [1])
+    for row in succ:
+        for x in row:
+            r = rng.random()
+            if r < .3:
+                x[1] = rng.randrange(n)                       # re-route
+            elif r < .45:
+                x[2] = rng.choice([0, 1, x[2] + 1, max(0, x[2] - 1), rng.randint(0, min(cmax, 100))])   # re-price
+    goal = list(case["goal"])
+    if rng.random() < .25:
+        g_ = rng.randrange(n)
+        goal[g_] = not goal[g_]
+    start = rng.randrange(n) if rng.random() < .4 else case["start"]
+    e.update({"succ": succ, "goal": goal, "start": start, "scenario": "edited", "replan": False, "tabular": False, "h_scale": [1, 1]})
+    d = exact_dist(e)
+    hk = rng.choice(["zero", "exact", "half", "exact_inf"])
+    e["heuristic"] = hk
+    e["h"] = ([0] * n if hk == "zero" else [BIG if x is None else x for x in d] if hk == "exact" else
+              [BIG if x is None else x // 2 for x in d] if hk == "half" else ["inf" if x is None else x for x in d])
+    if e["num_type"] == "float32":
+        tot = sum(c for row in succ for _, _, c in row) + 1
+        if tot >= 2 ** 20:
+            e["num_type"] = "float"
+        else:
+            e["h"] = [tot if x == BIG else x for x in e["h"]]
+    assert consistent(e)
+    return e
 
 
 def consistent(case):
@@ -362,7 +405,8 @@ def features(case):
             "seed_0": case.get("seed") == 0 or case.get("bfs_seed") == 0, "start_0": case["start"] == 0, "single_state": case["n"] == 1,
             "near_tie_large_totals": near_tie_large(case, d), "min_steps_eq_n_minus_1": du is not None and du == case["n"] - 1 and case["n"] > 2,
             "min_steps_ge_1000": du is not None and du >= 1000, "every_state_at_most_one_action": all(len(r) <= 1 for r in case["succ"]) and case["n"] > 1,
-            "h_scale_%d_%d" % tuple(case.get("h_scale", [1, 1])): True, "late_policy_read": case.get("late_policy", False),
+            "h_scale_%d_%d" % tuple(case.get("h_scale", [1, 1])): True, "late_policy_read": case.get("late_policy", False), "edit_mode_" + case.get("edit_mode", "none"): True,
+            "start_moved_by_edit": "edited" in case and case["edited"]["start"] != case["start"],
             "n_states_eq_n_action_labels": case["n"] == len({a for r in case["succ"] for a, _, _ in r}) and case["n"] > 1}
 
 
@@ -492,6 +536,10 @@ def run(ctx):
         units.append((parent, parent, res))
         if parent.get("scenario") == "two_wrappers":
             units.append((parent, parent["other"], res["other"]))
+        if parent.get("scenario") == "edit_replan":
+            units.append((parent, parent["edited"], res["edited"]))          # judged against the object's definition after the edit
+            if "again" in res:
+                units.append((parent, parent, dict(res["again"], is_again=True)))
     n_nested_h = n_long_checks = n_nondyadic = 0
     mirror_mult = {}
     n_requery = n_rerun = 0
@@ -509,7 +557,7 @@ def run(ctx):
         branch["astar_runs_with_10plus_repushes"] += res["astar"].get("repushes", 0) >= 10
         branch["astar_max_repushes_in_a_run"] = max(branch["astar_max_repushes_in_a_run"], res["astar"].get("repushes", 0))
         branch["astar_runs_with_stale_pop"] += res["astar"].get("stale_pops", 0) > 0
-        if case is parent:
+        if case is parent and not res.get("is_again"):
             if res.get("mutated"):
                 ctx.violation("C05:search:mutates-caller-objects",
                               {"case": parent, "objects": res["mutated"],
@@ -554,7 +602,7 @@ def run(ctx):
                     if "dict" not in reported_once:
                         reported_once.add("dict")
                         ctx.violation("C05:from_mdp:dict-distribution-support-not-indexable",
-                                      {"case": parent, "judged_problem": "second wrapper" if case is not parent else "main", "algorithm": alg, "error": out["error"], "model_from_mdp_read": model_reads,
+                                      {"case": parent, "judged_problem": "main" if case is parent else case.get("scenario", "second"), "algorithm": alg, "error": out["error"], "model_from_mdp_read": model_reads,
                                        "clause": "a deterministic MDP given through a single-entry DictDistribution is not accepted: "
                                                  "from_mdp indexes `.support[0]` but DictDistribution.support is a dict keys view"},
                                       found=True)
@@ -566,18 +614,18 @@ def run(ctx):
                     if "inf" not in reported_once:
                         reported_once.add("inf")
                         ctx.violation("C05:astar:infinite-heuristic-stale-node-assertion",
-                                      {"case": parent, "judged_problem": "second wrapper" if case is not parent else "main", "algorithm": alg, "error": out["error"],
+                                      {"case": parent, "judged_problem": "main" if case is parent else case.get("scenario", "second"), "algorithm": alg, "error": out["error"],
                                        "clause": "A* raises AssertionError instead of returning a plan / no plan when the (consistent, exact) "
                                                  "heuristic is +inf on states from which no absorbing state is reachable"},
                                       found=True)
                     continue
-                ctx.violation("C05:%s:raises:%s" % (alg, et), {"case": parent, "judged_problem": "second wrapper" if case is not parent else "main", "algorithm": alg, "error": out["error"],
+                ctx.violation("C05:%s:raises:%s" % (alg, et), {"case": parent, "judged_problem": "main" if case is parent else case.get("scenario", "second"), "algorithm": alg, "error": out["error"],
                                                               "clause": "search raises on an input inside the property's quantifier"}, found=True)
                 continue
             if alg == "astar" and out["plan"] is not None:
                 out["plan"]["value_int"] = int_value(out["plan"]["value"])
                 if out["plan"]["value_int"] is None:
-                    ctx.violation(sig_of(alg, CLAUSES[3]), {"case": parent, "judged_problem": "second wrapper" if case is not parent else "main", "algorithm": alg, "impl": out,
+                    ctx.violation(sig_of(alg, CLAUSES[3]), {"case": parent, "judged_problem": "main" if case is parent else case.get("scenario", "second"), "algorithm": alg, "impl": out,
                                                             "failing_clause": {"clause": CLAUSES[3], "reported": out["plan"]["value"]}}, found=True)
                     continue
             if case.get("long"):
@@ -625,7 +673,7 @@ def run(ctx):
     for k_, ((kind, i, alg), v) in enumerate(zip(meta, vals)):
         parent, case, out = units[i][0], units[i][1], units[i][2][alg]
         if isinstance(v, vlib.CoqError):
-            ctx.violation("C05:coq-evaluation-failed", {"case": parent, "judged_problem": "second wrapper" if case is not parent else "main", "algorithm": alg, "error": str(v)[:800]}, found=False)
+            ctx.violation("C05:coq-evaluation-failed", {"case": parent, "judged_problem": "main" if case is parent else case.get("scenario", "second"), "algorithm": alg, "error": str(v)[:800]}, found=False)
             continue
         if kind == "chk":
             nchk += 1
@@ -636,7 +684,7 @@ def run(ctx):
                 accepted += 1
                 continue
             why = failing_clause(case, out, alg)
-            detail = {"case": parent, "judged_problem": "second wrapper" if case is not parent else "main", "algorithm": alg, "impl": out, "certificate_clauses": list(clauses)}
+            detail = {"case": parent, "judged_problem": "main" if case is parent else case.get("scenario", "second"), "algorithm": alg, "impl": out, "certificate_clauses": list(clauses)}
             if why:
                 detail["failing_clause"] = why
                 ctx.violation(sig_of(alg, why["clause"]), detail, found=True)
@@ -678,7 +726,7 @@ def run(ctx):
                 "exact cost-to-go as potential, no mirror run); heuristic in {zero, exact, floor(exact/2), exact with +inf on dead states} (dead states otherwise %d), "
                 "tie_breaking in {lifo,fifo,random}, seeds, randomize_action_order, MDP given as a DeterministicShortestPathProblem subclass (next_state) or a QuickMDP whose "
                 "initial/next-state distributions are DeterministicDistribution / single-entry DictDistribution / single-element UniformDistribution; every case is run "
-                "through AStarSearch and BreadthFirstSearch; scenarios: plain / two_wrappers (from_mdp wrappers of two different generated problems built first, then the older "
+                "through AStarSearch and BreadthFirstSearch; scenarios: plain / edit_replan (ONE editable MDP object: plan, edit it in place or edit a shallow copy, plan again, optionally edit back and plan a third time; every plan judged against the definition at the time of the call) / two_wrappers (from_mdp wrappers of two different generated problems built first, then the older "
                 "one planned on, then the newer; both judged) / nested_h (heuristic_value computed lazily by a nested A* on a cost-relaxed copy given as a second non-DSP MDP); distinct = structural hash of (graph, goals, start) over cases that reached the certificate; non-trivial = the start is not absorbing and has at least one action" % BIG,
         "samples": [{"case": cases[0], "impl": impl[0]}] if cases else [],
         "certificate_checks": nchk, "certificate_accepts": accepted, "mirror_runs": nmir, "mirror_drift": drift,
